@@ -133,6 +133,9 @@ def gen_task(g, prop, name, svc, allow_ramp, big=False):
         if g.coin(0.05) and plan["ret"].startswith("dict"):
             plan["throughput"] = [g.pick([1.5, 20.0, 0.0])]
     plan["cpu_params"] = g.pick([None, None, [0.0003], [0.003, 0, 0]])
+    if prop == "C18" and t["op"] == "sim-op" and g.coin(0.4):
+        plan["nest"] = True  # the runner opens request contexts of its own (three levels with the executor's)
+        plan["nwire"] = g.pick([[1], [2], [1, 2, 3], [3]])
     if t["op"] == "sim-poll":
         plan["completes_after"] = g.randint(1, 12)
     elif g.coin(0.3):
@@ -486,6 +489,7 @@ class LoadgenHarness(Harness):
             random.seed(cfg.get("rand", 0))
             SimParamSource.clock = clock
             SimRunner.clock = clock
+            SimRunner.nested_obs = []
             runner.register_default_runners(None)
             runner.register_runner("sim-op", SimRunner(), async_runner=True)
             runner.register_runner("sim-poll", SimPollRunner(), async_runner=True)
@@ -938,6 +942,20 @@ def check_contexts(cfg, t, client, samples, reqs, tr, wires, proc, tol, bad, pro
             if abs(s.request_start - rs) > 1e-9 or abs(s.service_time - (re - rs)) > 1e-9:
                 bad("request-span", "plain", f"{ctx}: recorded [{s.request_start}, {s.request_start + s.service_time}], its wire requests span [{rs}, {re}]")
                 return
+            if t["sim"].get("nest") and not (t["sim"].get("faults") or {}).get(str(k)):
+                # every context the runner opened itself spans exactly the wire requests issued inside it
+                base = req["paths"][0].rsplit("/", 1)[0]
+                probes["runner_opened_nested_contexts"] = 1
+                for path, i, a, b in SimRunner.nested_obs:
+                    if path != base:
+                        continue
+                    inside = [p for p in req["paths"] if i is None or p == f"{base}/{i}"]
+                    spi = span_of(client, inside, k, tr, wires)
+                    if spi is None:
+                        continue
+                    if a is None or b is None or abs(a - spi[0]) > 1e-9 or abs(b - spi[1]) > 1e-9:
+                        bad("nested-context", "span", f"{ctx}: the runner's own context around {'all wire requests' if i is None else f'wire request {i}'} recorded [{a}, {b}], the wire requests inside it span [{spi[0]}, {spi[1]}]")
+                        return
             continue
         # composite: the HTTP requests this client started between this turn of the schedule and the next one
         lo_idx = ys[k][4]
